@@ -59,6 +59,13 @@ func New(cfg Config) *P {
 		}
 	}
 
+	if cfg.MaxConnsPerKey < 0 {
+		// The value (conn_max_idle_count of target.remote) is not checked
+		// anywhere, a negative channel size panics on the first Return.
+		// Keep no idle connections then, same as for 0.
+		cfg.MaxConnsPerKey = 0
+	}
+
 	p := &P{
 		cfg:         cfg,
 		keys:        make(map[string]slot, cfg.MaxKeys),
